@@ -11,16 +11,28 @@
    introduced) leaves them valid; a change of meaning does not.
 
    gen_addDurations wraps like Go; the model's sat_add saturates. They agree on
-   non-negative durations (dur_cfg: what the package documents, what every
-   configuration the harness generates satisfies), and differ on negative ones
-   (gen_addDurations_differs_negative). *)
-From Sessions Require Import Model.Base Model.Sess Gen.PureFn.
+   int64 durations of which at least one is non-negative (dur_cfg; implied by
+   RotateLaws3.cfg_ok - the one-sided bounds 0 <= grace, idexpiry <= max64 the
+   session theorems assume - together with the int64 range: cfg_ok_dur_cfg),
+   and differ when both are negative (gen_addDurations_differs_negative).
+
+   Reading conventions of the translation (trusted): several time.Since calls
+   inside one function are translated with one `now` (the model's request reads
+   the clock once; in Go successive readings differ by the nanoseconds between
+   them), and Go's int is taken as 64-bit. *)
+From Sessions Require Import Model.Base Model.Sess Gen.PureFn Proofs.RotateLaws3.
 From Coq Require Import Lia ZifyBool ZifyN.
 Local Open Scope Z_scope.
 
-(* SessionIDExpiry and SessionIDGracePeriod are non-negative int64 durations *)
+(* SessionIDExpiry and SessionIDGracePeriod are int64 durations, not both negative *)
 Definition dur_cfg (c : cfg) : Prop :=
-  0 <= c_idexpiry c <= max64 /\ 0 <= c_grace c <= max64.
+  (min64 <= c_idexpiry c <= max64 /\ min64 <= c_grace c <= max64) /\
+  (0 <= c_idexpiry c \/ 0 <= c_grace c).
+
+(* the bounds the session theorems assume (RotateLaws3.cfg_ok), within int64 *)
+Lemma cfg_ok_dur_cfg (c : cfg) :
+  cfg_ok c -> min64 <= c_idexpiry c -> c_grace c <= max64 -> dur_cfg c.
+Proof. unfold cfg_ok, dur_cfg, min64, max64. lia. Qed.
 
 Lemma wrap64_spec (z : Z) : exists k, wrap64 z = z + k * two64 /\ min64 <= wrap64 z <= max64.
 Proof.
@@ -67,8 +79,9 @@ Ltac pure_solve :=
 (* ---- addDurations ---- *)
 
 Theorem gen_addDurations_sat (a b : Z) :
-  0 <= a <= max64 -> 0 <= b <= max64 -> gen_addDurations a b = sat_add a b.
-Proof. intros Ha Hb. unfold gen_addDurations. pure_solve. Qed.
+  min64 <= a <= max64 -> min64 <= b <= max64 -> 0 <= a \/ 0 <= b ->
+  gen_addDurations a b = sat_add a b.
+Proof. intros Ha Hb Hor. unfold gen_addDurations. pure_solve. Qed.
 
 Theorem gen_addDurations_differs_negative :
   gen_addDurations (-1) min64 = max64 /\ sat_add (-1) min64 = min64.
@@ -78,7 +91,7 @@ Proof. vm_compute. split; reflexivity. Qed.
 
 Theorem gen_Expired_eq (c : cfg) (r : rec) (now : Z) :
   dur_cfg c -> gen_Expired c r now = expired c r now.
-Proof. intros [Hi Hg]. unfold gen_Expired, expired, gen_addDurations. pure_solve. Qed.
+Proof. intros [[Hi Hg] Hor]. unfold gen_Expired, expired, gen_addDurations. pure_solve. Qed.
 
 (* outside dur_cfg they differ: the Go sum wraps to "forever", the model's
    saturates to the most negative duration *)
@@ -106,7 +119,7 @@ Proof. unfold gen_rotate, m_rotate, m_isref. pure_solve. Qed.
 
 Theorem gen_backstop_eq (c : cfg) (r : rec) (now : Z) :
   dur_cfg c -> gen_backstop c r now = m_backstop c r now.
-Proof. intros [Hi Hg]. unfold gen_backstop, m_backstop, gen_addDurations. pure_solve. Qed.
+Proof. intros [[Hi Hg] Hor]. unfold gen_backstop, m_backstop, gen_addDurations. pure_solve. Qed.
 
 (* valid after the user-agent block = valid before && the model's ua_ok *)
 Theorem gen_ua_ok_eq (c : cfg) (r : rec) (now : Z) (valid : bool) (h : N) :
